@@ -222,6 +222,12 @@ def load_known(prop: str) -> list[dict]:
         with open(path) as f:
             data = json.load(f)
         entries.extend(data.get("findings", []))
+    ddir = os.path.join(env.VERIF_ROOT, "known_findings.d")
+    if os.path.isdir(ddir):
+        for name in sorted(os.listdir(ddir)):
+            if name.endswith(".json"):
+                with open(os.path.join(ddir, name)) as f:
+                    entries.extend(json.load(f).get("findings", []))
     return [e for e in entries if e.get("property") == prop]
 
 
